@@ -128,6 +128,12 @@ func c15Run(cs c15Case) (res interface{}, viol string) {
 				viol = fmt.Sprintf("IRIf(%q, %q) = %q is not recognised as a valid collection IRI", cs.O, cs.C, built)
 			} else if a, err := ap.CollectionPath(cs.C).OfActor(built); err != nil || !a.Equals(ap.IRI(cs.O), true) {
 				viol = fmt.Sprintf("OfActor(IRIf(%q, %q)) = %q, %v", cs.O, cs.C, a, err)
+			} else if viaItem := ap.CollectionPath(cs.C).IRI(ap.IRI(cs.O)); viaItem != built {
+				// the owner given as an item that is a bare IRI: the same built IRI (also when the owner's own last
+				// segment is this very collection name)
+				viol = fmt.Sprintf("%s.IRI(IRI(%q)) = %q, IRIf gives %q", cs.C, cs.O, viaItem, built)
+			} else if a, err := ap.CollectionPath(cs.C).OfActor(viaItem); err != nil || !a.Equals(ap.IRI(cs.O), true) {
+				viol = fmt.Sprintf("%s.OfActor(%s.IRI(IRI(%q))) = %q, %v", cs.C, cs.C, cs.O, a, err)
 			}
 		case "split":
 			o, c := ap.Split(ap.IRI(cs.I))
